@@ -615,6 +615,23 @@ for _p, _anchors in ANCHORS.items():
 # whole-package robustness sweep: every function of one file renamed / commuted at once, for every property
 # (the checks read far more functions than their anchors; tools/robust_sweep.py runs the same sweep by hand)
 # ---------------------------------------------------------------------------
+# defects 20 / 21: the options the loop divides by, and the sign of the first step
+DT_POS = "        if self.dt_init <= 0:\n"
+SE_POS = "        if self.save_every < 1:\n"
+CORPUS["C19"] += [
+    B("dt_init = 0 accepted", "R19.7", (OPTIONS, DT_POS, "        if self.dt_init < 0:\n")),
+    B("negative dt_init accepted", "R19.7", (OPTIONS, DT_POS, "        if self.dt_init == 0:\n")),
+    B("save_every = 0 accepted", "R19.7", (OPTIONS, SE_POS, "        if self.save_every < 0:\n")),
+    B("negative save_every accepted", "R19.7", (OPTIONS, SE_POS, "        if self.save_every == 0:\n")),
+    B("progress interval used as a modulus without its guard", "R19.7", (RUNNER, "if prog_disabled and (i % self.options.progress_interval) == 0:", "if (i % self.options.progress_interval) == 0 and prog_disabled:")),
+    E("dt_init guard spelled with not", (OPTIONS, DT_POS, "        if not self.dt_init > 0:\n")),
+    E("save_every guard spelled <= 0", (OPTIONS, SE_POS, "        if self.save_every <= 0:\n")),
+]
+CORPUS["C12"] += [
+    B("dt_init = 0 accepted", "R12.5", (OPTIONS, DT_POS, "        if self.dt_init < 0:\n")),
+    E("dt_init guard spelled with not", (OPTIONS, DT_POS, "        if not self.dt_init > 0:\n")),
+]
+
 def _package_files():
     import ast as _ast
     from ..src import repo_root as _rr
